@@ -115,6 +115,14 @@ def unknown_labels(run, rng, n):
         labels = np.array([rng.choice(pool + [np.nan]) for _ in range(m)], dtype=float)
         if np.isnan(labels).all():
             continue
+        ldt = rng.choice(["float64", "float64", "float32", "int64", "int8", "uint8", "uint16", "uint64"])
+        if ldt != "float64":
+            # other label dtypes (no missing labels for integers); cyclic / descending patterns make per-block label lists ascending or not
+            base = np.where(np.isnan(labels), pool[0], labels)
+            if rng.random() < 0.5:
+                srt = sorted(set(base.tolist()))
+                base = np.array([(srt if rng.random() < 0.5 else srt[::-1])[i % len(srt)] for i in range(m)], dtype=float)
+            labels = (base - min(base.min(), 0)).astype(ldt) if ldt.startswith("u") else base.astype(ldt)
         vals = np.array([I.unf(v) for v in G.rand_vals(rng, m, alphabet=G.ALPHA_FINITE + ["nan"], p_special=0.1)], dtype=float)
         func = rng.choice(["sum", "nansum", "max", "nanmin", "count", "mean", "nanfirst", "nanlast", "nanvar", "prod"])
         chunks = tuple(G.random_composition(rng, m))
@@ -136,8 +144,8 @@ def unknown_labels(run, rng, n):
             and (not sort or list(np.asarray(gg)) == sorted(np.asarray(gg))) and len(np.asarray(gg)) == len(set(np.asarray(gg).tolist()))
         if not ok:
             run.violation({"property": "C12", "kind": "labels / values found at compute time differ from the eager label->value mapping",
-                           "func": func, "vals": [I.fnum(x) for x in vals], "labels": [I.fnum(x) for x in labels], "chunks": list(chunks),
-                           "chunked": got, "eager": want, "lazy": lazy, "sort": sort}, tag="unk")
+                           "func": func, "vals": [I.fnum(x) for x in vals], "labels": [I.fnum(x) for x in labels], "label_dtype": str(labels.dtype),
+                           "chunks": list(chunks), "chunked": got, "eager": want, "lazy": lazy, "sort": sort}, tag="unk")
     run.sample({"unknown_labels_case": {"func": func, "labels": [I.fnum(x) for x in labels], "chunks": list(chunks)}})
 
 
